@@ -327,9 +327,15 @@ fn op_hist14(ops: &str) -> String {
                         // one rotation tick of the real timer handler: t<round>/<seeder>/<k=dl:ul,...> ('-' = not reported)
                         let f: Vec<&str> = rest.split('/').collect();
                         *s.verif_round() = f[0].parse().unwrap();
-                        let seeder = f[1] == "1";
-                        for st in s.verif_statuses().iter_mut() {
-                            *st = if seeder { Status::Have } else { Status::Missing };
+                        // 1: everything owned (a seeder); 0: nothing; 2: the end game - nothing Missing any more, the last
+                        // pieces still being fetched (Reserved); 3: a mix. Only 1 is a seeder.
+                        for (j, st) in s.verif_statuses().iter_mut().enumerate() {
+                            *st = match f[1] {
+                                "1" => Status::Have,
+                                "2" => if j == 0 { Status::Reserved(1) } else if j % 2 == 1 { Status::Have } else { Status::Reserved(2) },
+                                "3" => match j % 3 { 0 => Status::Have, 1 => Status::Missing, _ => Status::Reserved(1) },
+                                _ => Status::Missing,
+                            };
                         }
                         for (_, p) in s.verif_peers().iter_mut() {
                             p.download_rate = None;
@@ -406,7 +412,7 @@ fn tick14(r: &mut Rng, present: &[usize], partial: bool) -> String {
             format!("{}={}:{}", k, d, u)
         })
         .collect();
-    format!("t{}/{}/{}", r.below(3), r.below(2), rates.join(","))
+    format!("t{}/{}/{}", r.below(3), r.below(4), rates.join(","))
 }
 
 pub fn gen14(r: &mut Rng, n: usize) -> Vec<String> {
